@@ -343,6 +343,7 @@ func init() {
 				c.buf = append(c.buf, m.timeStruct(m.now))
 			}
 		}
+		t.dormant = func() bool { return len(c.buf) > 0 }
 		m.tickers[p] = t
 		return p
 	}
